@@ -1,3 +1,5 @@
+import math
+
 import torch
 from torch import Tensor
 from torch.distributions import constraints
@@ -131,14 +133,15 @@ class BirthDeath(Distribution):
     def log_q(self, A, B, t, t_i):
         """Probability density of lineage alive between time t and t_i gives
         rise to observed clade."""
-        e = torch.exp(-A * (t - t_i))
-        return torch.log(
-            4.0
-            * e
-            / torch.pow(
-                e * (1.0 + B) + (1.0 - B),
-                2,
-            )
+        # log(4e / (e(1+B) + (1-B))^2) with e=exp(x), written so that it does
+        # not overflow when |x| is large
+        x = -A * (t - t_i)
+        x_pos = x.clamp(min=0.0)
+        x_neg = x.clamp(max=0.0)
+        return math.log(4.0) + torch.where(
+            x > 0.0,
+            -x_pos - 2.0 * torch.log((1.0 + B) + torch.exp(-x_pos) * (1.0 - B)),
+            x_neg - 2.0 * torch.log(torch.exp(x_neg) * (1.0 + B) + (1.0 - B)),
         )
 
     def log_p(self, t):
@@ -155,7 +158,7 @@ class BirthDeath(Distribution):
             self.lambda_
             + self.mu
             + self.psi
-            - A * (term - one_minus_Bi) / (term + one_minus_Bi)
+            - A * (1.0 - 2.0 * one_minus_Bi / (term + one_minus_Bi))
         ) / (2.0 * self.lambda_)
         return p, A, B
 
@@ -168,9 +171,13 @@ class BirthDeath(Distribution):
 
         # first term
         e = torch.exp(-A * self.origin)
-        q0 = 4.0 * e / torch.pow(e * (1.0 - B) + (1.0 + B), 2)
+        log_q0 = (
+            math.log(4.0)
+            - A * self.origin
+            - 2.0 * torch.log(e * (1.0 - B) + (1.0 + B))
+        )
 
-        log_p = torch.log(q0[..., 0])
+        log_p = log_q0[..., 0]
         # condition on sampling at least one individual
         if self.survival:
             log_p -= torch.log(1.0 - p[..., 0])
